@@ -128,51 +128,89 @@ def shrink_candidates(plan):
 
 # ------------------------------------------------------------------------------------------- references
 def brute_geometry(mask, radius, threshold):
-    """centres (np.nonzero order), neighbour sets (as sorted linear indices), by brute force over all voxels"""
+    """per mask voxel (np.nonzero order): (linear index, admissible outcomes), by brute force over all voxels.
+    An outcome is (sorted neighbour list, accepted?).  Squared distances between voxels are integers and exact; a voxel
+    whose distance equals the radius up to floating-point rounding (radius = sqrt(2) as a float is larger than the true
+    sqrt(2), so "strictly below" holds in exact arithmetic and fails in float arithmetic) may be in or out, and a mask
+    fraction equal to the threshold up to rounding may be accepted or not: the statement does not settle rounding"""
     shape = mask.shape
     vox = list(itertools.product(range(shape[0]), range(shape[1]), range(shape[2])))
-    centres, neigh = [], []
+    lin = lambda v: v[0] * shape[1] * shape[2] + v[1] * shape[2] + v[2]
+    from fractions import Fraction
+    r2 = float(radius) * float(radius)
+    r2x = Fraction(float(radius)) ** 2            # the radius the caller passed, squared exactly
+    thx = Fraction(float(threshold))
+    tol = 1e-9 * max(1.0, r2)
+    out = []
     for c in vox:
         if not mask[c]:
             continue
-        nb = [v for v in vox if ((v[0] - c[0]) ** 2 + (v[1] - c[1]) ** 2 + (v[2] - c[2]) ** 2) ** 0.5 < radius]
-        if not nb:
-            continue
-        frac = sum(1 for v in nb if mask[v]) / len(nb)
-        if frac >= threshold:
-            centres.append(c[0] * shape[1] * shape[2] + c[1] * shape[2] + c[2])
-            neigh.append(sorted(v[0] * shape[1] * shape[2] + v[1] * shape[2] + v[2] for v in nb))
-    return centres, neigh
+        must, may = [], []
+        for v in vox:
+            d2 = (v[0] - c[0]) ** 2 + (v[1] - c[1]) ** 2 + (v[2] - c[2]) ** 2
+            if abs(d2 - r2) <= tol and Fraction(d2) != r2x:
+                may.append(v)             # equal only up to rounding: undecided
+            elif Fraction(d2) < r2x:
+                must.append(v)            # (a distance exactly equal to the radius is not strictly below it)
+        outcomes = []
+        for nb in ([must] if not may else [must, must + may]):
+            if not nb:
+                outcomes.append(([], False))
+                continue
+            frac = sum(1 for v in nb if mask[v]) / len(nb)
+            lst = sorted(lin(v) for v in nb)
+            fx = Fraction(sum(1 for v in nb if mask[v]), len(nb))
+            if abs(frac - threshold) <= 1e-12 and fx != thx:
+                outcomes += [(lst, True), (lst, False)]      # equal only up to rounding: undecided
+            else:
+                outcomes.append((lst, fx >= thx))
+        out.append((lin(c), outcomes))
+    return out
 
 
 def check_geometry(ctx, mask, radius, threshold, tag=''):
     from rsatoolbox.util.searchlight import get_volume_searchlight
-    exp_c, exp_n = brute_geometry(mask, radius, threshold)
+    ref = brute_geometry(mask, radius, threshold)
+    n_sure = sum(1 for _, oc in ref if all(a for _, a in oc))
     desc = f'mask shape {list(mask.shape)} {mask.astype(int).ravel().tolist() if mask.size <= 40 else "(%d voxels set)" % int(mask.sum())}, radius {radius}, threshold {threshold}'
     try:
         centers, neighbors = get_volume_searchlight(mask, radius=radius, threshold=threshold)
     except Exception as e:
-        kind = 'empty' if not exp_c else 'nonempty'
+        kind = 'empty' if not n_sure else 'nonempty'
         ctx.violation('sl_ref.geometry', f'get_volume_searchlight:raises:{kind}',
-                      f'get_volume_searchlight raised {type(e).__name__}: {e} for {desc} ({len(exp_c)} centres qualify)')
+                      f'get_volume_searchlight raised {type(e).__name__}: {e} for {desc} ({n_sure} centres qualify)')
         return None
     got_c = [int(c) for c in np.asarray(centers).ravel().tolist()]
-    if got_c != exp_c:
-        ctx.violation('sl_ref.geometry', 'get_volume_searchlight:centres',
-                      f'accepted centres {got_c[:30]} != brute force {exp_c[:30]} for {desc}')
+    if len(neighbors) != len(got_c):
+        ctx.violation('sl_ref.geometry', 'get_volume_searchlight:neighbour-count', f'{len(neighbors)} neighbour lists for {len(got_c)} centres ({desc})')
         return None
-    if len(neighbors) != len(exp_n):
-        ctx.violation('sl_ref.geometry', 'get_volume_searchlight:neighbour-count', f'{len(neighbors)} neighbour lists for {len(exp_n)} centres ({desc})')
-        return None
-    for i, (g, e) in enumerate(zip(neighbors, exp_n)):
-        gl = sorted(int(x) for x in np.asarray(g).ravel().tolist())
-        if gl != e:
-            ctx.violation('sl_ref.geometry', 'get_volume_searchlight:neighbours',
-                          f'centre {exp_c[i]}: neighbours {gl} != voxels at distance < {radius}: {e} ({desc})')
+    k = 0
+    for c, outcomes in ref:
+        if k < len(got_c) and got_c[k] == c:
+            gl = sorted(int(x) for x in np.asarray(neighbors[k]).ravel().tolist())
+            k += 1
+            if not any(a for _, a in outcomes):
+                ctx.violation('sl_ref.geometry', 'get_volume_searchlight:centres',
+                              f'voxel {c} was accepted as a centre although its searchlight lies inside the mask by less than '
+                              f'the threshold fraction; accepted centres {got_c[:30]} for {desc}')
+                return None
+            if not any(a and lst == gl for lst, a in outcomes):
+                ctx.violation('sl_ref.geometry', 'get_volume_searchlight:neighbours',
+                              f'centre {c}: neighbours {gl} != voxels at distance < {radius}: {[lst for lst, a in outcomes if a]} ({desc})')
+                return None
+        elif not any(not a for _, a in outcomes):
+            ctx.violation('sl_ref.geometry', 'get_volume_searchlight:centres',
+                          f'mask voxel {c} qualifies as a centre but is missing (or out of order) in the accepted centres {got_c[:30]} for {desc}')
             return None
+    if k != len(got_c):
+        ctx.violation('sl_ref.geometry', 'get_volume_searchlight:centres',
+                      f'accepted centres {got_c[:30]} are not mask voxels in scan order ({desc})')
+        return None
+    if any(len(oc) > 1 for _, oc in ref):
+        ctx.probe('geometries_with_rounding_ties')
     ctx.probe('geometries_checked')
-    if exp_c:
-        ctx.probe('centres_checked', len(exp_c))
+    if got_c:
+        ctx.probe('centres_checked', len(got_c))
         ctx.nontrivial = True
     else:
         ctx.probe('empty_result_geometries')
